@@ -43,9 +43,25 @@ def _func(tree, name, cls=None):
                 break
         else:
             raise ValueError('class %s not found' % cls)
-    for n in body:
-        if isinstance(n, ast.FunctionDef) and n.name == name:
-            return n
+    found = [n for n in body if isinstance(n, ast.FunctionDef) and n.name == name]
+    if len(found) > 1:
+        raise ValueError('%s%s is defined %d times' % (cls + '.' if cls else '', name, len(found)))
+    # the name must not be rebound later on (`_is_null = ...`, `Link.compute_index_key = ...`, a second class ...)
+    for n in ast.walk(tree):
+        if isinstance(n, (ast.Assign, ast.AugAssign, ast.AnnAssign)):
+            for tg in (n.targets if isinstance(n, ast.Assign) else [n.target]):
+                if (isinstance(tg, ast.Name) and tg.id == name and cls is None and n in tree.body) or \
+                        (isinstance(tg, ast.Attribute) and tg.attr == name):
+                    raise ValueError('%s is rebound by `%s`' % (name, ast.unparse(n)[:80]))
+        elif isinstance(n, ast.Call) and isinstance(n.func, ast.Name) and n.func.id == 'setattr' and len(n.args) >= 2 \
+                and isinstance(n.args[1], ast.Constant) and n.args[1].value == name:
+            raise ValueError('%s is rebound by `%s`' % (name, ast.unparse(n)[:80]))
+    if cls is not None and len([n for n in tree.body if isinstance(n, ast.ClassDef) and n.name == cls]) != 1:
+        raise ValueError('class %s is defined more than once' % cls)
+    if found:
+        if [d for d in found[0].decorator_list if ast.unparse(d) != 'staticmethod']:
+            raise ValueError('%s%s carries a decorator' % (cls + '.' if cls else '', name))
+        return found[0]
     raise ValueError('%s%s not found' % (cls + '.' if cls else '', name))
 
 
@@ -318,6 +334,12 @@ def new_relate(tree):
         raise ValueError('MetaClass.new: expected exactly one `for link in self.links.values():`')
     i = loops[0]
     _expect(b[i - 1], 'if not referential_attributes:\n    return inst', 'MetaClass.new (before the batch relate)')
+    # nothing after the batch relate but the warning about unassigned values and the return
+    if len(b) != i + 3:
+        raise ValueError('MetaClass.new: expected two statements after the batch relate, found %d' % (len(b) - i - 1))
+    _expect(b[i + 1], "for name, value in referential_attributes.items():\n    if getattr(inst, name) != value:\n"
+                      "        logger.warning('unable to assign %s to %s', name, inst)", 'MetaClass.new (after the batch relate)')
+    _expect(b[i + 2], 'return inst', 'MetaClass.new (end)')
     loop = b[i]
     if loop.orelse or len(loop.body) != 5:
         raise ValueError('MetaClass.new: expected 5 statements in the batch relate, found %d' % len(loop.body))
@@ -369,6 +391,58 @@ def new_relate(tree):
     return {'given': given, 'null': null, 'onNull': on_null, 'qname': var[qname], 'vfrom': var[vfrom],
             'args': '[' + ', '.join(args) + ']'}
 
+# ----------------------------------------------------------------------------- statements -> define_* / instances
+
+def populate_shape(tree, meta_tree):
+    """how the statement fields reach define_association, and how an INSERT's values are paired with the attributes"""
+    fn = _func(tree, 'populate_associations', 'ModelLoader')
+    b = _body(fn)
+    if len(b) != 1 or not isinstance(b[0], ast.For) or ast.unparse(b[0].iter) != 'self.statements' or len(b[0].body) != 3:
+        raise ValueError('populate_associations: expected one loop over self.statements with 3 statements')
+    s = b[0].body
+    _expect(s[0], 'if not isinstance(stmt, CreateAssociationStmt):\n    continue', 'populate_associations')
+    st = s[1]
+    if not (isinstance(st, ast.Assign) and ast.unparse(st.targets[0]) == 'ass' and isinstance(st.value, ast.Call)
+            and ast.unparse(st.value.func) == 'metamodel.define_association' and not st.value.keywords):
+        raise ValueError('populate_associations: expected `ass = metamodel.define_association(<positional arguments>)`')
+    args = [ast.unparse(a) for a in st.value.args]
+    _expect(s[2], 'ass.formalize()', 'populate_associations')
+    params = [a.arg for a in _func(meta_tree, 'define_association', 'MetaModel').args.args][1:]
+    # instances
+    fn = _func(tree, 'populate_instances', 'ModelLoader')
+    b = _body(fn)
+    if len(b) != 1 or not isinstance(b[0], ast.For) or ast.unparse(b[0].iter) != 'self.statements' or len(b[0].body) != 3:
+        raise ValueError('populate_instances: expected one loop over self.statements with 3 statements')
+    s = b[0].body
+    _expect(s[0], 'if not isinstance(stmt, CreateInstanceStmt):\n    continue', 'populate_instances')
+    _expect(s[1], 'if stmt.names:\n    fn = self._populate_instance_with_named_arguments\nelse:\n'
+                  '    fn = self._populate_instance_with_positional_arguments', 'populate_instances (named / positional)')
+    _expect(s[2], 'fn(metamodel, stmt)', 'populate_instances')
+    fn = _func(tree, '_populate_instance_with_positional_arguments', 'ModelLoader')
+    loops = [n for n in ast.walk(fn) if isinstance(n, ast.For)]
+    if len(loops) != 1 or ast.unparse(loops[0].iter) != 'zip(metaclass.attributes, stmt.values)' or \
+            ast.unparse(loops[0].target) != '(attr, value)':
+        raise ValueError('positional INSERT: expected `for attr, value in zip(metaclass.attributes, stmt.values):`')
+    lb = loops[0].body
+    _expect(lb[0], 'name, ty = attr', 'positional INSERT')
+    _expect(lb[1], 'py_value = deserialize_value(ty, value)', 'positional INSERT')
+    _expect(lb[-1], 'inst.__dict__[name] = py_value', 'positional INSERT')
+    fn = _func(tree, '_populate_instance_with_named_arguments', 'ModelLoader')
+    src = ast.unparse(fn)
+    for want in ('inst_unames = [name.upper() for name in stmt.names]', 'for name, ty in metaclass.attributes:',
+                 'idx = inst_unames.index(uname)', 'value = deserialize_value(ty, stmt.values[idx])',
+                 'inst.__dict__[name] = value'):
+        if src.count(want) != 1:
+            raise ValueError('named INSERT: expected exactly one `%s`' % want)
+    return args, params
+
+
+def _lean_strs(xs):
+    for x in xs:
+        if not all(32 <= ord(c) < 127 and c not in '"\\' for c in x):
+            raise ValueError('unexpected character in %r' % x)
+    return '[' + ', '.join('"%s"' % x for x in xs) + ']'
+
 
 def generate(repo_dir):
     meta = ast.parse(open(os.path.join(repo_dir, 'xtuml', 'meta.py'), encoding='utf-8').read())
@@ -378,9 +452,11 @@ def generate(repo_dir):
     index = key_spec(meta, 'compute_index_key', 'to_instance')
     br = batch_relate(load)
     nr = new_relate(meta)
+    aargs, aparams = populate_shape(load, meta)
     text = '''/-
   GENERATED by translator/gen_loaddecisions.py from xtuml/meta.py (_is_null, Link.compute_lookup_key,
-  Link.compute_index_key, MetaClass.new) and xtuml/load.py (ModelLoader.populate_connections) — do not edit.
+  Link.compute_index_key, MetaClass.new) and xtuml/load.py (ModelLoader.populate_connections, populate_associations,
+  populate_instances) — do not edit.
 -/
 namespace Pyx.Gen.LoadDecisions
 
@@ -471,10 +547,19 @@ inductive RelArg where
 /-- `for other_inst in link.to_metaclass.query(kwargs): relate(<these>)` -/
 def newRelateArgs : List RelArg := %s
 
+/-! `ModelLoader.populate_associations`: the parameters of `MetaModel.define_association` and the expressions over the
+    CREATE ROP statement handed to them, in call order.  (`populate_instances` dispatches on `if stmt.names:`; a
+    positional INSERT pairs `zip(metaclass.attributes, stmt.values)`, a named one looks its names up upper-cased: these
+    are checked by the generator as exact statement shapes.) -/
+
+def defineAssociationParams : List String := %s
+
+def defineAssociationArgs : List String := %s
+
 end Pyx.Gen.LoadDecisions
 ''' % (null, lookup, index, br['indexed'], br['probing'], br['cacheLink'], br['cacheNames'], br['indexKeyLink'],
        br['lookupKeyLink'], br['connects'], nr['given'], nr['null'], nr['onNull'], nr['qname'], nr['vfrom'],
-       nr['args'])
+       nr['args'], _lean_strs(aparams), _lean_strs(aargs))
     return [('LoadDecisions.lean', text)]
 
 
